@@ -260,6 +260,7 @@ asn_dec_rval_t
 uper_open_type_get(const asn_codec_ctx_t *ctx, const asn_TYPE_descriptor_t *td,
                    const asn_per_constraints_t *constraints, void **sptr,
                    asn_per_data_t *pd) {
+    if(!td->op->uper_decoder) ASN__DECODE_FAILED;
     return uper_open_type_get_simple(ctx, td, constraints, sptr, pd);
 }
 
